@@ -265,6 +265,109 @@ def interp_functions(repo, outdir):
     write(os.path.join(outdir, "InterpGen.lean"), "\n".join(out))
     return len(jobs)
 
+# ---------------------------------------------------------------------------------------------
+# Statement fragment (rsexpr.StmtParser): `CoordinatePosition` from geo/src/algorithm/coordinate_position.rs
+
+CPOS = "geo/src/algorithm/coordinate_position.rs"
+CP_PATHS = dict(ORI_PATHS)
+CP_PATHS.update({"Ordering::Less": "Ordering.lt", "Ordering::Equal": "Ordering.eq", "Ordering::Greater": "Ordering.gt"})
+CP_PARAMS = r"\(\s*&self,\s*coord: &Coord<T>,\s*is_inside: &mut bool,\s*%s: &mut usize,?\s*\)\s*\{"
+
+def cp_header(ty, bc="boundary_count"):
+    return r"impl<T> CoordinatePosition for %s<T>.*?fn calculate_coordinate_position" % ty + CP_PARAMS % bc
+
+def cp_opts(bc="boundary_count", **kw):
+    o = {"muts": [("is_inside", "Bool"), (bc, "Nat")], "ret_ctor": "PosAcc.mk", "ret_type": "PosAcc",
+         # release build: debug assertions are compiled out (the harness is built with --release)
+         "debug_assert": "skip", "accessors": {}, "mut_types": {}}
+    o.update(kw)
+    return o
+
+def cp_call(fn):
+    """`x.calculate_coordinate_position(coord, a, b)` resolved (by the receiver's static type, chosen per job) to `fn`"""
+    return {"calculate_coordinate_position": {"fn": fn, "ctor": "PosAcc.mk", "proj": ["inside", "bcount"]}}
+
+# semantic choices shared by the jobs below (each one explicit here):
+#   Vec<_> = List, .len() = List.length, .is_empty() = List.isEmpty, .first()/.last() = head?/getLast?, .iter() = the list
+#   Option::unwrap = Gen.unwrap (total; panic not modelled), usize / i32 counters = Nat / Int without overflow
+VEC_ACC = {"len": "{}.length", "is_empty": "{}.isEmpty", "first": "{}.head?", "last": "{}.getLast?", "iter": "{}",
+           "unwrap": "(Gen.unwrap {})"}
+
+def coordpos_jobs(repo):
+    import rsexpr
+    tri = strip_comments(open(os.path.join(repo, "geo-types/src/geometry/triangle.rs")).read())
+    to_lines = rsexpr.array_literal(tri, r"pub fn to_lines\(&self\) -> \[Line<T>; 3\] \{", {}, {"Line::new": "Prod.mk"})
+    acc = "(acc : PosAcc)"
+    # (header, Lean name, parameters, paths, funcs, subst, resub, opts)
+    return [
+        (r"pub fn coord_pos_relative_to_ring<T>\(coord: Coord<T>, linestring: &LineString<T>\) -> CoordPos\s+where\s+T: GeoNum,\s*\{",
+         "coordPosRelativeToRing", "(coord : Pt) (linestring : List Pt)", "Pos",
+         {"T::Ker::orient2d": "Geo.orient", "value_in_between": "Gen.valueInBetween"},
+         [("linestring.1", "linestring"), ("line.start", "line.1"), ("line.end", "line.2")], [],
+         {"ret_type": "Pos", "debug_assert": "skip", "mut_types": {"winding_number": "Int"},
+          # `LineString::lines()` = consecutive coordinate pairs (`windows(2)`), modelled by `Geo.segs`
+          "accessors": dict(VEC_ACC, lines="(Geo.segs {})")}),
+        (cp_header("Coord", "_boundary_count"), "coordCalc", "(self_ coord : Pt) " + acc, "PosAcc", {}, [("self", "self_")], [],
+         cp_opts("_boundary_count")),
+        (cp_header("Point", "_boundary_count"), "pointCalc", "(self_ coord : Pt) " + acc, "PosAcc", {}, [("self.1", "self_")], [],
+         cp_opts("_boundary_count")),
+        (cp_header("Line"), "lineCalc", "(s e coord : Pt) " + acc, "PosAcc", {".intersects": "Gen.lineCoord"},
+         [("self.start", "s"), ("self.end", "e"), ("self", "s e")], [], cp_opts(state_calls=cp_call("coordCalc"))),
+        (cp_header("LineString"), "lineStringCalc", "(cs : List Pt) (coord : Pt) " + acc, "PosAcc",
+         {"Line::new": "{0} {1}",
+          ".intersects": [(r"^\(Gen\.unwrap \(Geo\.getBoundingRect self\)\)$", "(Gen.rectCoord {0}.1 {0}.2 {1})"),
+                          (r"^self$", "(Geo.lineStringCoord {0} {1})")]},
+         [("self.1", "cs"), ("self", "cs")], [],
+         cp_opts(state_calls=cp_call("lineCalc"),
+                 accessors=dict(VEC_ACC, bounding_rect="(Geo.getBoundingRect {})", is_closed="(Geo.isClosedLS {})"))),
+        (cp_header("Triangle"), "triangleCalc", "(a b c coord : Pt) " + acc, "PosAcc",
+         {"T::Ker::orient2d": "Geo.orient", "point_in_rect": "Gen.pointInRect"},
+         [("self.1", "a"), ("self.2", "b"), ("self.3", "c"), ("l.start", "l.1"), ("l.end", "l.2")], [],
+         cp_opts(arrays={"self.to_lines": to_lines}, accessors={"to_lines": "{}.to_lines"})),
+        (cp_header("Rect"), "rectCalc", "(mn mx coord : Pt) " + acc, "PosAcc",
+         {".partial_cmp": "(Gen.partialCmp? {0} {1})"}, [("self.min", "mn"), ("self.max", "mx")], [],
+         cp_opts(accessors={"min": "{}.min", "max": "{}.max", "unwrap": "(Gen.unwrap {})"})),
+        (cp_header("MultiPoint", "_boundary_count"), "multiPointCalc", "(ps : List Pt) (coord : Pt) " + acc, "PosAcc",
+         {".any": "({0}.any {1})"}, [("self.1", "ps"), ("p.1", "p")], [], cp_opts("_boundary_count", accessors=VEC_ACC)),
+        (cp_header("Polygon"), "polygonCalc", "(poly : Poly) (coord : Pt) " + acc, "PosAcc",
+         {"coord_pos_relative_to_ring": "coordPosRelativeToRing"}, [("self", "poly")], [],
+         # `Polygon::is_empty` (HasDimensions) = `self.exterior().0.is_empty()`
+         cp_opts(accessors={"is_empty": "{}.ext.isEmpty", "exterior": "{}.ext", "interiors": "{}.ints"})),
+        (cp_header("MultiLineString"), "multiLineStringCalc", "(ls : List (List Pt)) (coord : Pt) " + acc, "PosAcc", {},
+         [("self.1", "ls")], [], cp_opts(state_calls=cp_call("lineStringCalc"))),
+        (cp_header("MultiPolygon"), "multiPolygonCalc", "(ps : List Poly) (coord : Pt) " + acc, "PosAcc", {},
+         [("self.1", "ps")], [], cp_opts(state_calls=cp_call("polygonCalc"), mut_types={"member_boundary_count": "Nat"})),
+        # the provided trait method; `self.calculate_coordinate_position` is the parameter `calcFn`
+        (r"fn coordinate_position\(&self, coord: &Coord<Self::Scalar>\) -> CoordPos \{",
+         "coordinatePosition", "(calcFn : Pt → PosAcc → PosAcc) (coord : Pt)", "Pos", {}, [], [(r"\(calcFn self coord", "(calcFn coord")],
+         {"ret_type": "Pos", "mut_types": {"boundary_count": "Nat"}, "state_calls": cp_call("calcFn")}),
+    ]
+
+def coordpos_functions(repo, outdir):
+    """Gen/CoordPosGen.lean: the `CoordinatePosition` impls and `coord_pos_relative_to_ring`, whole bodies."""
+    import rsexpr
+    src = strip_comments(open(os.path.join(repo, CPOS)).read())
+    out = ["/- generated by translator/rs2lean.py (rsexpr, statement fragment) from %s; do not edit -/" % CPOS,
+           "import GeoModel.Locate", "import GeoModel.TRANPrelude", "import GeoModel.Gen.Kernel", "",
+           "namespace Geo.Gen", "open Geo", "set_option linter.unusedVariables false", ""]
+    try:
+        jobs = coordpos_jobs(repo)
+    except rsexpr.TranslateError as e:
+        die("Triangle::to_lines: %s" % e)
+    for (hdr, name, params, ret, funcs, subst, resub, opts) in jobs:
+        try:
+            term = rsexpr.translate_fn(src, hdr, CP_PATHS, funcs, subst, resub=resub, opts=opts)
+        except rsexpr.TranslateError as e:
+            die("%s (%s): %s" % (name, CPOS, e))
+        pro = ""
+        if opts.get("ret_ctor"):
+            pro = "".join("  let %s := acc.%s\n" % (m[0], f) for m, f in zip(opts["muts"], ["inside", "bcount"]))
+        out.append("/-- `%s` — %s -/" % (name, CPOS))
+        out.append("def %s %s : %s :=\n%s%s\n" % (name, params, ret, pro, term))
+    out += ["end Geo.Gen", ""]
+    write(os.path.join(outdir, "CoordPosGen.lean"), "\n".join(out))
+    return len(jobs)
+
 ENDPT = {"p.start": "p1", "p.end": "p2", "q.start": "q1", "q.end": "q2"}
 
 def collinear_table(repo, outdir):
@@ -366,7 +469,8 @@ def main():
     na = affine_functions(repo, outdir)
     nr = rect_functions(repo, outdir)
     ni = interp_functions(repo, outdir)
-    print("rs2lean: wrote Masks.lean (%d predicates), Enums.lean (%d op rules), CollinearTable.lean (%d rows), Kernel.lean (%d functions), AffineGen.lean (%d functions), RectGen.lean (%d functions), InterpGen.lean (%d functions)" % (len(fns), len(pairs), rows, nk, na, nr, ni))
+    nc = coordpos_functions(repo, outdir)
+    print("rs2lean: wrote Masks.lean (%d predicates), Enums.lean (%d op rules), CollinearTable.lean (%d rows), Kernel.lean (%d functions), AffineGen.lean (%d functions), RectGen.lean (%d functions), InterpGen.lean (%d functions), CoordPosGen.lean (%d functions)" % (len(fns), len(pairs), rows, nk, na, nr, ni, nc))
 
 if __name__ == "__main__":
     main()
